@@ -72,7 +72,7 @@ FAMILIES = {
     "leftrec": (30, 300, 24, {"p_leftrec": 1.0, "p_memo": 0.3}),
     "ws": (30, 300, 36, {"p_noskip": 0.5, "p_user_ws": 0.4, "p_include": 0.5}),
     "hooks": (30, 300, 24, {"p_hooks": 1.0, "p_ctx": 0.4}),
-    "include": (30, 300, 24, {"p_include": 1.0, "p_noskip": 0.4}),
+    "include": (40, 400, 28, {"p_include": 1.0, "p_noskip": 0.4, "p_frag_dir": 0.8}),
 }
 
 
